@@ -16,7 +16,9 @@ X.HOSTS.update({'hi': ('xn--bcher-kva.test', '10.0.1.1'), 'h4': ('10.0.1.2', '10
 
 UI = {'none': ('', None), 'user': ('user@', None), 'userpw': ('user:pw@', ('user', 'pw')),
       'enc': ('us%40er:p%3Aw@', ('us@er', 'p:w')), 'crlf': ('u%0d%0a:p%0d%0a@', ('u\r\n', 'p\r\n')),
-      'emptypw': ('user:@', None)}
+      'emptypw': ('user:@', None),
+      # credentials longer than one base64 output line (57 octets)
+      'long': ('u' * 30 + ':' + 'p' * 64 + '@', ('u' * 30, 'p' * 64))}
 HOST = {'plain': ('h1.test', 'h1', 'h1.test'), 'upper': ('H1.TEST', 'h1', 'h1.test'),
         'idn': ('bücher.test', 'hi', 'xn--bcher-kva.test'), 'ip4': ('10.0.1.2', 'h4', '10.0.1.2'),
         'ip6': ('[::1]', 'h6', '[::1]'), 'ip6long': ('[0:0:0:0:0:0:0:1]', 'h6', '[::1]')}
